@@ -72,8 +72,12 @@ func init() {
 				in := c.In
 				path := voc.text(vpSeq(in["path"]))
 				query := vpRouteQueries[vpS(in, "query")]
-				body := bodies[vpS(in, "body")]
-				req := vpReq{Method: vpS(in, "method"), Target: path + query, Cookie: cookie, Body: body,
+				bclass := vpS(in, "body")
+				body := bodies[strings.TrimPrefix(bclass, "chunked_")]
+				if bclass == "chunked_big" {
+					body = body[:200*1024]
+				}
+				req := vpReq{Method: vpS(in, "method"), Target: path + query, Cookie: cookie, Body: body, Chunked: strings.HasPrefix(bclass, "chunked_"),
 					Header: [][2]string{{"X-Custom-A", "1"}, {"X-Custom-A", "2"}, {"X-Weird_Name", "w"}, {"Accept-Language", "xx-YY"}}}
 				if body != "" {
 					req.Header = append(req.Header, [2]string{"Content-Type", "application/octet-stream"})
